@@ -71,12 +71,12 @@ theorem Box3.closestPointOnBox_cases [LinearOrder α] [Sub α] (p : V3 α) (b : 
        apply hI hni hm
        unfold Box3.InsideChoice
        first
-        | (left; refine ⟨rfl, ?_, ?_, ?_, ?_, ?_⟩ <;> order)
-        | (right; left; refine ⟨rfl, ?_, ?_, ?_, ?_, ?_⟩ <;> order)
-        | (right; right; left; refine ⟨rfl, ?_, ?_, ?_, ?_, ?_⟩ <;> order)
-        | (right; right; right; left; refine ⟨rfl, ?_, ?_, ?_, ?_, ?_⟩ <;> order)
-        | (right; right; right; right; left; refine ⟨rfl, ?_, ?_, ?_, ?_, ?_⟩ <;> order)
-        | (right; right; right; right; right; refine ⟨rfl, ?_, ?_, ?_, ?_, ?_⟩ <;> order))
+        | (left; refine ⟨rfl, ?_⟩; simp only [← le_min_iff]; order)
+        | (right; left; refine ⟨rfl, ?_⟩; simp only [← le_min_iff]; order)
+        | (right; right; left; refine ⟨rfl, ?_⟩; simp only [← le_min_iff]; order)
+        | (right; right; right; left; refine ⟨rfl, ?_⟩; simp only [← le_min_iff]; order)
+        | (right; right; right; right; left; refine ⟨rfl, ?_⟩; simp only [← le_min_iff]; order)
+        | (right; right; right; right; right; refine ⟨rfl, ?_⟩; simp only [← le_min_iff]; order))
     | -- p outside: the result is the clip
       (have e := hO hni (by rintro ⟨⟨m1, m2⟩, ⟨m3, m4⟩, ⟨m5, m6⟩⟩; order)
        simp only [Box3.clipN, sclamp, *, if_true, if_false] at e
@@ -119,5 +119,59 @@ theorem inside_core (p s : V3 α) (b : Box3 α) (d : α) (hd0 : 0 ≤ d)
     linarith
   · have := sq_le_sq_of_le_abs _ _ hd0 hz2; linarith
 
+
+/-- Euclidean form of "clip is the nearest point of the box" -/
+theorem Box3.clipN_dist2_le (p q : V3 α) (b : Box3 α) (hq : Box3.Mem q b) :
+    V3.dist2 (Box3.clipN p b) p ≤ V3.dist2 q p := by
+  obtain ⟨⟨q1, q2⟩, ⟨q3, q4⟩, ⟨q5, q6⟩⟩ := hq
+  unfold V3.dist2 Box3.clipN
+  exact add_le_add (add_le_add (sq_le_sq_of_between _ _ _ (sclamp_between _ _ _ _ q1 q2))
+    (sq_le_sq_of_between _ _ _ (sclamp_between _ _ _ _ q3 q4))) (sq_le_sq_of_between _ _ _ (sclamp_between _ _ _ _ q5 q6))
+
+theorem Box3.insideChoice_nearest (p q s : V3 α) (b : Box3 α) (hp : Box3.Mem p b) (hq : Box3.InsideChoice p b q)
+    (hs : s.x = b.min.x ∨ s.x = b.max.x ∨ s.y = b.min.y ∨ s.y = b.max.y ∨ s.z = b.min.z ∨ s.z = b.max.z) :
+    V3.dist2 q p ≤ V3.dist2 s p := by
+  obtain ⟨⟨p1, p2⟩, ⟨p3, p4⟩, ⟨p5, p6⟩⟩ := hp
+  rcases hq with ⟨rfl, h1, h2, h3, h4, h5⟩ | ⟨rfl, h1, h2, h3, h4, h5⟩ | ⟨rfl, h1, h2, h3, h4, h5⟩ |
+    ⟨rfl, h1, h2, h3, h4, h5⟩ | ⟨rfl, h1, h2, h3, h4, h5⟩ | ⟨rfl, h1, h2, h3, h4, h5⟩
+  · refine le_trans (le_of_eq ?_) (inside_core p s b (p.x - b.min.x) (sub_nonneg.2 p1) (le_refl _) h1 h2 h3 h4 h5 hs)
+    simp only [V3.dist2]; ring
+  · refine le_trans (le_of_eq ?_) (inside_core p s b (b.max.x - p.x) (sub_nonneg.2 p2) h1 (le_refl _) h2 h3 h4 h5 hs)
+    simp only [V3.dist2]; ring
+  · refine le_trans (le_of_eq ?_) (inside_core p s b (p.y - b.min.y) (sub_nonneg.2 p3) h1 h2 (le_refl _) h3 h4 h5 hs)
+    simp only [V3.dist2]; ring
+  · refine le_trans (le_of_eq ?_) (inside_core p s b (b.max.y - p.y) (sub_nonneg.2 p4) h1 h2 h3 (le_refl _) h4 h5 hs)
+    simp only [V3.dist2]; ring
+  · refine le_trans (le_of_eq ?_) (inside_core p s b (p.z - b.min.z) (sub_nonneg.2 p5) h1 h2 h3 h4 (le_refl _) h5 hs)
+    simp only [V3.dist2]; ring
+  · refine le_trans (le_of_eq ?_) (inside_core p s b (b.max.z - p.z) (sub_nonneg.2 p6) h1 h2 h3 h4 h5 (le_refl _) hs)
+    simp only [V3.dist2]; ring
+
 end ring
+
+section order
+variable [LinearOrder α]
+
+/-- the clip of a point outside a non-inverted box lies on the surface -/
+theorem Box3.clipN_onSurface (p : V3 α) (b : Box3 α) (hb : ¬ Box3.Inverted b) (hp : ¬ Box3.Mem p b) :
+    Box3.OnSurface (Box3.clipN p b) b := by
+  refine ⟨Box3.clipN_mem p b hb, ?_⟩
+  simp only [Box3.Mem, not_and_or, not_le] at hp
+  simp only [Box3.clipN, sclamp]
+  simp only [Box3.Inverted, not_or, not_lt] at hb
+  obtain ⟨b1, b2, b3⟩ := hb
+  rcases hp with (h | h) | (h | h) | (h | h)
+  · left; rw [if_pos h]
+  · right; left; rw [if_neg (by order), if_pos h]
+  · right; right; left; rw [if_pos h]
+  · right; right; right; left; rw [if_neg (by order), if_pos h]
+  · right; right; right; right; left; rw [if_pos h]
+  · right; right; right; right; right; rw [if_neg (by order), if_pos h]
+
+theorem Box3.insideChoice_onSurface [Sub α] (p q : V3 α) (b : Box3 α) (hp : Box3.Mem p b) (hq : Box3.InsideChoice p b q) :
+    Box3.OnSurface q b := by
+  obtain ⟨⟨p1, p2⟩, ⟨p3, p4⟩, ⟨p5, p6⟩⟩ := hp
+  rcases hq with ⟨rfl, -⟩ | ⟨rfl, -⟩ | ⟨rfl, -⟩ | ⟨rfl, -⟩ | ⟨rfl, -⟩ | ⟨rfl, -⟩ <;>
+    refine ⟨⟨⟨?_, ?_⟩, ⟨?_, ?_⟩, ⟨?_, ?_⟩⟩, ?_⟩ <;> first | order | simp
+end order
 end ImathVerif.C13
